@@ -163,6 +163,14 @@ pub struct Sim {
 impl Sim {
     /// `order` selects one of the legitimate registration orders of plugins / key systems.
     pub fn new(order: u8) -> Sim {
+        Self::with_executor(order, false)
+    }
+
+    /// `multi_threaded = false` switches every schedule of the main loop to bevy's single-threaded
+    /// executor (one legitimate, deterministic schedule per registration order; ~10x faster because
+    /// the global task pool is not contended by the 16 monitor workers). `true` keeps bevy's default
+    /// multi-threaded executor, where unordered systems really run in varying orders.
+    pub fn with_executor(order: u8, multi_threaded: bool) -> Sim {
         let mut app = App::new();
         let mut time = Time::default();
         let start = Instant::now();
@@ -187,6 +195,15 @@ impl Sim {
                 app.register_animation_key::<Cv, Key>();
                 app.add_plugins(AnimationPlugin::<Cv>::new());
             }
+        }
+        if !multi_threaded {
+            use bevy::ecs::schedule::ExecutorKind;
+            app.edit_schedule(First, |s| { s.set_executor_kind(ExecutorKind::SingleThreaded); });
+            app.edit_schedule(PreUpdate, |s| { s.set_executor_kind(ExecutorKind::SingleThreaded); });
+            app.edit_schedule(StateTransition, |s| { s.set_executor_kind(ExecutorKind::SingleThreaded); });
+            app.edit_schedule(Update, |s| { s.set_executor_kind(ExecutorKind::SingleThreaded); });
+            app.edit_schedule(PostUpdate, |s| { s.set_executor_kind(ExecutorKind::SingleThreaded); });
+            app.edit_schedule(Last, |s| { s.set_executor_kind(ExecutorKind::SingleThreaded); });
         }
         // settle: build schedules, drain nothing
         app.update();
